@@ -14,7 +14,7 @@ import (
 // heap passes the threshold; the pair is then inconclusive (counted), never a
 // verdict.
 
-const heapLimit = 1200 << 20
+const heapLimit = 500 << 20
 
 var (
 	guardMu      sync.Mutex
